@@ -4,7 +4,7 @@
    correspondence run (separate processes, different thread counts) exercise the rest. *)
 From Coq Require Import List NArith ZArith Bool Sorting.Permutation.
 From FV.C02 Require Import Model Graph Order Safe Reach.
-From FV.C01 Require Import Model Det SchedDet SortDet.
+From FV.C01 Require Import Model Det SchedDet SortDet Batch.
 From FV.C07 Require Model OrderIndep.
 From FV.C06 Require Model Proofs.
 From FV.C02 Require Props.
@@ -108,6 +108,23 @@ Example name_order_nonvacuous :
   name_order_ok [(0,4,0,1);(0,4,0,2);(3,1,1033,1);(3,1,1033,2);(3,1,1033,256)]%N = true
   /\ name_order_ok [(3,1,1033,2);(3,1,1033,1)]%N = false.
 Proof. split; vm_compute; reflexivity. Qed.
+
+(* 6. Batch interpolation (fontir/src/glyph.rs batch_interpolate_missing, issue 1873): interpolating every missing
+      location from the original source set makes the result independent of the order the HashSet of locations is
+      visited in, for any interpolation function; interpolating from the growing set does not. *)
+Theorem batch_interpolation_ignores_hash_order : forall (L V : Type) (leqb : L -> L -> bool)
+    (interp : list (L * V) -> L -> V), (forall a b, leqb a b = true <-> a = b) ->
+  forall m locs locs', Permutation locs locs' ->
+  forall k, lookup L V leqb (batch L V leqb interp m locs) k = lookup L V leqb (batch L V leqb interp m locs') k.
+Proof. exact batch_order_independent. Qed.
+Print Assumptions batch_interpolation_ignores_hash_order.
+
+Theorem incremental_interpolation_depends_on_order :
+  exists (interp : list (N * N) -> N -> N) m locs locs' k,
+    Permutation locs locs'
+    /\ lookup N N N.eqb (incremental N N N.eqb interp m locs) k <> lookup N N N.eqb (incremental N N N.eqb interp m locs') k.
+Proof. exact incremental_depends_on_order. Qed.
+Print Assumptions incremental_interpolation_depends_on_order.
 
 (* non-vacuity: two different schedules of the tiny safe graph of C02 run the same jobs *)
 Example two_schedules :
